@@ -110,7 +110,8 @@ def base_program(r, nfiles):
 # ---- preceding-text shapes ------------------------------------------------------------------------
 
 SHAPES = ["plain", "nonascii-comment", "nonascii-string", "multiline-string", "blank-lines", "trailing-comment",
-          "tab-indent", "crlf", "multiline-nonascii-crlf"]
+          "tab-indent", "crlf", "multiline-nonascii-crlf", "multiline-string-ends-with-newline", "string-of-newlines",
+          "multiline-nonascii-before-newline"]
 
 
 def shape_lines(shape, ctx, uid):
@@ -126,6 +127,14 @@ def shape_lines(shape, ctx, uid):
         return [ind + "m_%d %s \"first %s" % (uid, op, NONASCII if "nonascii" in shape else "line"),
                 "second line // not a comment",
                 "  third\" // after the literal"]
+    if shape == "multiline-string-ends-with-newline":
+        # the closing quote stands alone on the last line: the payload ends with a line break
+        return [ind + "e_%d %s \"first line" % (uid, op), "second line", "\""]
+    if shape == "string-of-newlines":
+        return [ind + "n_%d %s \"" % (uid, op), "", "\" // only line breaks inside"]
+    if shape == "multiline-nonascii-before-newline":
+        # multi-byte characters before the last inner line break, a token after the literal on its last line
+        return [ind + "u_%d %s (\"sm%srg%ssbord" % (uid, op, NONASCII, NONASCII), "x\", 1)"]
     if shape == "blank-lines":
         return ["", ind, ""]
     if shape == "trailing-comment":
